@@ -277,6 +277,9 @@ func dominatingConds(b *ssa.BasicBlock) []condEdge {
 // establishes its parts: for a boolean phi, the edges whose constant contradicts the known outcome are excluded; if
 // one edge remains, its value has the known outcome and control passed through that edge's predecessor.
 func atomise(ce condEdge, d int) []condEdge {
+	if _, isBin := ce.Cond.(*ssa.BinOp); isBin {
+		ce.Cond, ce.Val = normalizeCond(ce.Cond, ce.Val)
+	}
 	out := []condEdge{ce}
 	if d > 4 {
 		return out
@@ -734,4 +737,86 @@ func paramIndex(x *ssa.Parameter) int {
 		}
 	}
 	return -1
+}
+
+// ------------------------------------------------------------ comparison normal form
+
+// normalizeCond rewrites a branch condition into the form the rules are written against, without changing its
+// meaning: negations are unfolded into the outcome; a constant operand goes to the right (mirroring the operator);
+// emptiness tests are spelled `len(x) == 0` (from `< 1`, `<= 0`, `> 0`, `>= 1`, `!= 0`) and, for strings, `s == ""`;
+// `x != k` with outcome v becomes `x == k` with outcome !v only when that is how the rules spell it (it is not: both
+// EQL and NEQ are kept, rules accept either with the matching outcome). The returned value is the original one when
+// nothing had to change, otherwise a synthetic BinOp (usable for its operands, operator and canonical form only).
+func normalizeCond(cond ssa.Value, val bool) (ssa.Value, bool) {
+	for i := 0; i < 4; i++ {
+		u, ok := cond.(*ssa.UnOp)
+		if !ok || u.Op != token.NOT {
+			break
+		}
+		cond, val = u.X, !val
+	}
+	bo, ok := cond.(*ssa.BinOp)
+	if !ok {
+		return cond, val
+	}
+	x, y, op := bo.X, bo.Y, bo.Op
+	switch op {
+	case token.EQL, token.NEQ, token.LSS, token.LEQ, token.GTR, token.GEQ:
+	default:
+		return cond, val
+	}
+	changed := false
+	if _, lc := x.(*ssa.Const); lc {
+		if _, rc := y.(*ssa.Const); !rc {
+			x, y = y, x
+			switch op {
+			case token.LSS:
+				op = token.GTR
+			case token.LEQ:
+				op = token.GEQ
+			case token.GTR:
+				op = token.LSS
+			case token.GEQ:
+				op = token.LEQ
+			}
+			changed = true
+		}
+	}
+	// emptiness of len()/cap()
+	if call, isCall := x.(*ssa.Call); isCall && (isBuiltin(call, "len") || isBuiltin(call, "cap")) {
+		if k, isK := constInt(y); isK {
+			empty, known := false, false
+			switch {
+			case op == token.EQL && k == 0, op == token.LSS && k == 1, op == token.LEQ && k == 0:
+				empty, known = true, true
+			case op == token.NEQ && k == 0, op == token.GTR && k == 0, op == token.GEQ && k == 1:
+				empty, known = false, true
+			}
+			if known {
+				arg := call.Call.Args[0]
+				if bt, isB := arg.Type().Underlying().(*types.Basic); isB && bt.Info()&types.IsString != 0 && isBuiltin(call, "len") {
+					// string emptiness: s == ""
+					k0 := ssa.NewConst(constant.MakeString(""), arg.Type())
+					if empty {
+						return &ssa.BinOp{Op: token.EQL, X: arg, Y: k0}, val
+					}
+					return &ssa.BinOp{Op: token.NEQ, X: arg, Y: k0}, val
+				}
+				if !(op == token.EQL || op == token.NEQ) || k != 0 {
+					zero := ssa.NewConst(constant.MakeInt64(0), y.Type())
+					if empty {
+						return &ssa.BinOp{Op: token.EQL, X: x, Y: zero}, val
+					}
+					return &ssa.BinOp{Op: token.NEQ, X: x, Y: zero}, val
+				}
+			}
+		}
+	}
+	if !changed {
+		if cond == ssa.Value(bo) {
+			return cond, val
+		}
+		return bo, val
+	}
+	return &ssa.BinOp{Op: op, X: x, Y: y}, val
 }
